@@ -60,12 +60,18 @@ def search(ctx):
     define / test / expand one macro under every directive"""
     out = []
     variants = ["plain", "state", "pp-guard", "pp-macros", "pp-version", "unbounded", "reserved-matrix", "reserved-cb",
-                "reserved-kernel", "reserved-cb-main", "reserved-double", "entry-texture", "typedef-array",
+                "reserved-kernel", "reserved-cb-main", "reserved-double", "entry-texture", "typedef-array", "nonresource", "nonresource-rq",
                 "e-pp-if", "e-parse-mid", "e-type-undef-mid", "e-pipe-entry", "layout-trap", "include", "api-define"]
     for seed in range(1, 40):
         for v in variants:
             out.append(f"C18.cross\t{seed * 7919}\t{v}\t\t\t")
     toks = ["a", "X", "__HLSL_VERSION", "1"]
+    for t in ("dx", "msl"):
+        # the branch discipline of one #if block (fix 03ca601: nothing follows the #else branch)
+        for tail in ("ELSE ;; T b ;; ELSE ;; T c", "ELSE ;; T b ;; ELIF 1 ;; T c", "ELIF 1 ;; T b ;; ELSE ;; T c",
+                     "ELIF 0 ;; T b ;; ELIF 1 ;; T c"):
+            for c0 in ("0", "1"):
+                out.append(f"C18.pp\t{t}\t\tIF {c0} ;; T a ;; {tail} ;; ENDIF")
     conds = ["X", "defined ( X )", "! defined ( X )", "__HLSL_VERSION == 2021", "( X ) && 1", "X == 1 || a"]
     for t in ("dx", "vk", "vkba", "msl"):
         for c in conds:
@@ -81,11 +87,12 @@ SPEC = {
     "lean_modules": ["RsslVerif.Thm.C18"],
     "theorems": [T + n for n in [
         "unmentioned_define_irrelevant", "target_dependent_names", "frontend_target_independent",
-        "target_reads_covered", "targets_share_front_end",
+        "target_reads_covered", "targets_share_front_end", "no_branch_after_else",
         "expand_fuel_irrelevant",
         "build_shape_as_modelled", "dx_vk_same_stage_reports", "all_targets_same_stage_kinds_sizes",
         "dx_vk_declarations_differ_only_in_annotations_partial", "dx_register_vk_binding",
         "descriptor_tables_equal", "kind_count_from_declaration", "binding_kinds_counts_shared", "dx_vk_bindings_shared",
+        "reflected_kinds_are_resources", "non_resource_global_refused_on_every_target",
         "binding_names_kinds_counts_shared_partial", "binding_names_not_shared",
         "simplify_cbuffers_as_modelled", "msl_reflects_simplified_module", "kinds_counts_shared_through_simplify",
         "bindings_shared_through_simplify_partial", "cbuffer_block_one_binding_everywhere",
@@ -97,10 +104,11 @@ SPEC = {
     "shrink": shrink,
     "search": search,
     "rule": "generated shader files (progen: up to 7 resources of 18 kinds incl. arrays, static samplers, bindless, bind groups; "
-            "helper call graphs; 1-4 pipelines compute / vertex+pixel / mesh+pixel / task+mesh) in 50 variants (accepted: plain, "
-            "explicit pipeline state, include guards, object-like macros, #if __HLSL_VERSION, dead garbage in #if 0, unbounded "
+            "helper call graphs; 1-4 pipelines compute / vertex+pixel / mesh+pixel / task+mesh) in 53 variants (accepted: plain, "
+            "explicit pipeline state, include guards, object-like macros, #if __HLSL_VERSION, dead garbage in #if 0 incl. lines "
+            "that start with # but name no directive, unbounded "
             "array, resources named like HLSL/MSL reserved words, declarations in an included file, API-level defines, a struct "
-            "whose layouts differ between HLSL and Metal; rejected: 20 injected lexer / preprocessor / parser / type / "
+            "whose layouts differ between HLSL and Metal, a global of a non-resource object kind (refused by every exporter); rejected: 20 injected lexer / preprocessor / parser / type / "
             "pipeline errors at the top, middle and end of the file; layout validation requested), plus the self-contained wide "
             "programs of harness/src/c17/wgen.rs in 12 option combinations (21 resource kinds, typedef'd / unsized / bindless "
             "arrays, cbuffers with 0-5 members, static sampler properties, per-primitive mesh / pixel shapes, bodies calling "
@@ -110,7 +118,8 @@ SPEC = {
             "define list and compared with the Lean macro model (a quarter of them mention RSSL_TARGET_* on purpose); "
             "non-trivial = accepted file with resources and pipelines / preprocessor program with macros that produces output",
     "level_text": "Proof of the logic plus source inventories: (1) for a compact executable model of the preprocessor (object-like "
-                  "macros with the disabled-set recursion rule, #define/#undef table discipline, the 3-state condition chain, "
+                  "macros with the disabled-set recursion rule, #define/#undef table discipline, the condition chain with its "
+                  "3-state gate and the nothing-follows-#else rule of fix 03ca601 (`no_branch_after_else`), "
                   "`defined`), a macro that is never mentioned is proved irrelevant for files of any length and nesting, hence the "
                   "token stream / error is the same for every target when RSSL_TARGET_* is unmentioned, hence compile()'s front "
                   "end (modelled as preprocess-then-a-function-of-the-tokens, the shape and argument reads of which are "
@@ -120,7 +129,9 @@ SPEC = {
                   "stage kinds and sizes; (4) both back ends' ObjectType->DescriptorType tables are extracted and proved equal, "
                   "descriptor kind/count are proved to be functions of the declaration alone, and the compared part of the "
                   "reflection (static samplers and buffer addresses aside) is proved equal for any declaration list and any two "
-                  "parameter sets. Partial: that the HLSL output for dx and vk differs only in annotations is proved "
+                  "parameter sets; a global of an object kind without a register class (RayDesc, RayQuery, TriangleStream: fix "
+                  "774c0b4) is proved to be refused by every back end under every parameter set. "
+                  "Partial: that the HLSL output for dx and vk differs only in annotations is proved "
                   "for a thin model of the extern global / cbuffer declarations only (the harness compares the real sources "
                   "token for token after erasing `: register(..)` and `[[vk::..]]`); binding *names* are shared only when every "
                   "declared name is reserved in neither or in both target languages (each exporter reports its emitted name) - "
